@@ -193,7 +193,9 @@ fn main() {
             for tol in [1e-6, 1e-8, 1e-10] {
                 // (a tolerance below the rounding noise of the coordinates cannot be met: a sketch at
                 // coordinates 1e6 resolves about 1e-10; the clause is about tolerances that make sense)
-                if tol < 64.0 * f64::EPSILON * mag.max(1.0) {
+                // (error measures are built from differences of coordinates - rounding error eps*mag each -
+                // multiplied by lengths of the order of the sketch's size)
+                if tol < 64.0 * f64::EPSILON * mag.max(1.0) * sys.scale.max(1.0) {
                     continue;
                 }
                 let mut s = sys.clone();
